@@ -739,7 +739,11 @@ def standard_models():
         "std::fmt::format": m_opaque("string"),
         "alloc::fmt::format": m_opaque("string"),
     }
+    def m_host_log(ip, st, fr, t, args):
+        # logging: whether a record is emitted depends on the host's log level only (both branches are followed; they differ in output)
+        return ip.opaque_of_type(t["dest"]["ty"], "host")
     patterns = [
+        (lambda p, f: (p or "").startswith("log::") or ((p or "") in ("std::cmp::PartialOrd::le", "std::cmp::PartialOrd::ge", "std::cmp::PartialOrd::lt", "std::cmp::PartialOrd::gt") and "log::Level" in (f or "")), m_host_log),
         (lambda p, f: bool(_INT_TY.match(p or "")), int_method),
         (is_int_convert, m_int_convert),
         (is_range_index, m_range_index),
